@@ -7,6 +7,8 @@ src/smpi/bindings/smpi_pmpi_type.cpp, src/smpi/mpi/smpi_datatype_derived.cpp `Ty
 `build`  = what the code constructs: an `Obj` (which C++ class, which size/lb/ub/flags, which stored blocks), following every
            branch of `create_*` (contiguous -> hvector for derived old types, "contiguous" shortcuts, ...)
 `walk`   = the byte offsets visited, in order, by `serialize` / `unserialize` of that object (same pointer arithmetic in both)
+The model follows the code after props/C30/fix_series/01..07 (lb/ub of indexed / hindexed / struct blocks, zero-length
+blocks, zero block length vectors, one-dimensional subarrays, the (un)serialize walk, clone of vector / indexed).
 `Spec.layout` = MPI-4.0 §5.1: typemap (as byte offsets, in typemap order), lb, ub (ε = 0), resized overrides.
 All arithmetic in `Int` (the values exercised are far from the int / MPI_Aint limits).
 -/
@@ -76,8 +78,8 @@ def markerObj : Obj := .plain ⟨0, 0, 0, false⟩
 def mkHvector (count bl stride : Int) (old : Obj) : Option Obj :=
   if bl < 0 then none else
   let o := old.info
-  let lb := if count > 0 then o.lb else 0
-  let ub := if count > 0 then (count - 1) * stride + (bl - 1) * o.extent + o.ub else 0
+  let lb := if count > 0 && bl > 0 then o.lb else 0                     -- `if(count>0 && block_length>0)`
+  let ub := if count > 0 && bl > 0 then (count - 1) * stride + (bl - 1) * o.extent + o.ub else 0
   if o.derived || stride != bl * o.extent then
     some (.hvector ⟨o.size * bl * count, lb, ub, true⟩ count bl stride old false)
   else
@@ -95,34 +97,47 @@ def mkContiguous (count : Int) (old : Obj) (lb : Int) : Option Obj :=
 def mkVector (count bl stride : Int) (old : Obj) : Option Obj :=
   if bl < 0 then none else
   let o := old.info
-  let lb := if count > 0 then o.lb else 0
-  let ub := if count > 0 then ((count - 1) * stride + bl - 1) * o.extent + o.ub else 0
+  let lb := if count > 0 && bl > 0 then o.lb else 0                     -- `if(count>0 && block_length>0)`
+  let ub := if count > 0 && bl > 0 then ((count - 1) * stride + bl - 1) * o.extent + o.ub else 0
   if o.derived || stride != bl then
     -- Type_Vector: Type_Hvector with stride * old_type->get_extent()
     some (.hvector ⟨o.size * bl * count, lb, ub, true⟩ count bl (stride * o.extent) old true)
   else
     some (.plain ⟨o.size * bl * count, 0, o.size * ((count - 1) * stride + bl), true⟩)
 
+/-- one block (or struct member) of positive length in the lb/ub computation of create_indexed / create_hindexed /
+    create_struct: `bl` copies of the old type at `disp + j * extent`, j = 0 .. bl-1:
+      block_lb = disp + old->lb();  block_ub = disp + (bl - 1) * extent + old->ub();
+      if (empty || block_lb < lb) lb = block_lb;  if (empty || block_ub > ub) ub = block_ub;  empty = false;
+    blocks of length 0 are skipped.  State = (lb, ub, empty). -/
+def blockBounds (disp bl oldLb oldUb oldExt : Int) (st : Int × Int × Bool) : Int × Int × Bool :=
+  if bl > 0 then
+    let blb := disp + oldLb
+    let bub := disp + (bl - 1) * oldExt + oldUb
+    (if st.2.2 || blb < st.1 then blb else st.1, if st.2.2 || bub > st.2.1 then bub else st.2.1, false)
+  else st
+
+/-- the contiguity test of the loops: `if ((i < count - 1) && (end_of_block_i != indices[i+1])) contiguous = false;` -/
+def chainOk (blockEnd : Int) : Option Int → Bool
+  | none => true
+  | some next => blockEnd == next
+
 /-- the `for` loop of create_indexed / create_hindexed (`scale` = extent for indexed, 1 for hindexed; `csize` = what
-    the contiguity test multiplies the block length with: 1 for indexed (indices in extents), old size for hindexed) -/
-def idxLoop (scale csize oldLb oldUb : Int) : List (Int × Int) → Int → Int → Int → Bool → Option (Int × Int × Int × Bool)
-  | [], s, lb, ub, c => some (s, lb, ub, c)
-  | (bl, idx) :: rest, s, lb, ub, c =>
+    the contiguity test multiplies the block length with: 1 for indexed (indices in extents), old size for hindexed).
+    Accumulators: size (in elements), (lb, ub, empty), contiguous. -/
+def idxLoop (scale csize oldLb oldUb oldExt : Int) :
+    List (Int × Int) → Int → Int × Int × Bool → Bool → Option (Int × Int × Int × Bool)
+  | [], s, st, c => some (s, st.1, st.2.1, c)
+  | (bl, idx) :: rest, s, st, c =>
     if bl < 0 then none else
-    let lb := if idx * scale + oldLb < lb then idx * scale + oldLb else lb
-    let ub := if idx * scale + bl * oldUb > ub then idx * scale + bl * oldUb else ub
-    let c := match rest with
-      | (_, idx') :: _ => if idx + csize * bl != idx' then false else c
-      | [] => c
-    idxLoop scale csize oldLb oldUb rest (s + bl) lb ub c
+    -- indexed: (indices[i]+block_lengths[i]-1)*extent + ub  =  indices[i]*extent + (block_lengths[i]-1)*extent + ub
+    idxLoop scale csize oldLb oldUb oldExt rest (s + bl) (blockBounds (idx * scale) bl oldLb oldUb oldExt st)
+      (c && chainOk (idx + csize * bl) (rest.head?.map (·.2)))
 
 /-- `Datatype::create_indexed` -/
 def mkIndexed (blocks : List (Int × Int)) (old : Obj) : Option Obj :=
   let o := old.info
-  let (lb0, ub0) := match blocks with
-    | (bl0, idx0) :: _ => (idx0 * o.extent, idx0 * o.extent + bl0 * o.ub)     -- no `+ old_type->lb()` here
-    | [] => (0, 0)
-  match idxLoop o.extent 1 o.lb o.ub blocks 0 lb0 ub0 true with
+  match idxLoop o.extent 1 o.lb o.ub o.extent blocks 0 (0, 0, true) true with
   | none => none
   | some (size, lb, ub, contiguous) =>
     let contiguous := if o.derived then false else contiguous
@@ -133,10 +148,7 @@ def mkIndexed (blocks : List (Int × Int)) (old : Obj) : Option Obj :=
 /-- `Datatype::create_hindexed` -/
 def mkHindexed (blocks : List (Int × Int)) (old : Obj) : Option Obj :=
   let o := old.info
-  let (lb0, ub0) := match blocks with
-    | (bl0, idx0) :: _ => (idx0 + o.lb, idx0 + bl0 * o.ub)
-    | [] => (0, 0)
-  match idxLoop 1 o.size o.lb o.ub blocks 0 lb0 ub0 true with
+  match idxLoop 1 o.size o.lb o.ub o.extent blocks 0 (0, 0, true) true with
   | none => none
   | some (size, lb, ub, contiguous) =>
     let contiguous := if o.derived || lb != 0 then false else contiguous
@@ -152,26 +164,19 @@ def Blocks.ofList : List (Int × Int × Obj) → Blocks
   | (bl, d, o) :: rest => .cons bl d o (Blocks.ofList rest)
 
 /-- the `for` loop of create_struct (no MPI_LB / MPI_UB members: those only come from create_resized, which builds the
-    Type_Struct directly) -/
-def structLoop : List (Int × Int × Obj) → Int → Int → Int → Bool → Option (Int × Int × Int × Bool)
-  | [], s, lb, ub, c => some (s, lb, ub, c)
-  | (bl, idx, old) :: rest, s, lb, ub, c =>
+    Type_Struct directly).  Accumulators: size (bytes), (lb, ub, empty), contiguous. -/
+def structLoop : List (Int × Int × Obj) → Int → Int × Int × Bool → Bool → Option (Int × Int × Int × Bool)
+  | [], s, st, c => some (s, st.1, st.2.1, c)
+  | (bl, idx, old) :: rest, s, st, c =>
     if bl < 0 then none else
     let o := old.info
-    let c := if o.derived then false else c
-    let lb := if idx + o.lb < lb then idx else lb                       -- `lb = indices[i]` (drops `+ lb`)
-    let ub := if idx + bl * o.ub > ub then idx + bl * o.ub else ub
-    let c := match rest with
-      | (_, idx', _) :: _ => if idx + o.size * bl != idx' then false else c
-      | [] => c
-    structLoop rest (s + bl * o.size) lb ub c
+    -- `if (old_types[i]->flags_ & DT_FLAG_DERIVED) contiguous=false;` then the lb/ub update, then the contiguity test
+    structLoop rest (s + bl * o.size) (blockBounds idx bl o.lb o.ub o.extent st)
+      (c && !o.derived && chainOk (idx + o.size * bl) (rest.head?.map (·.2.1)))
 
 /-- `Datatype::create_struct` -/
 def mkStruct (members : List (Int × Int × Obj)) : Option Obj :=
-  let (lb0, ub0) := match members with
-    | (bl0, idx0, old0) :: _ => (idx0 + old0.info.lb, idx0 + bl0 * old0.info.ub)
-    | [] => (0, 0)
-  match structLoop members 0 lb0 ub0 true with
+  match structLoop members 0 (0, 0, true) true with
   | none => none
   | some (size, lb, ub, contiguous) =>
     if !contiguous then some (.struct ⟨size, lb, ub, true⟩ (Blocks.ofList members))
@@ -202,7 +207,12 @@ def mkSubarray (dims : List (Int × Int × Int)) (orderC : Bool) (old : Obj) : O
   if dims.any (fun d => d.1 ≤ 0 || d.2.1 < 0 || d.2.2 < 0) then none else      -- CHECK_NEGATIVE_OR_ZERO / CHECK_NEGATIVE
   match dims with
   | [] => none
-  | [(_, sub, start)] => mkContiguous sub old (start * old.info.extent)
+  | [(sz, sub, start)] =>
+    -- ndims = 1: create_subarray without the `is_valid()` test: hindexed(1, [sub], [start*extent]) resized to [0, sz*extent)
+    if sub > sz || start + sub > sz then none else                               -- MPI_ERR_ARG
+    match mkHindexed [(sub, start * old.info.extent)] old with
+    | none => none
+    | some h => some (mkResized h 0 (sz * old.info.extent))
   | _ =>
     if !old.isCommitted then none else                                           -- `not oldtype->is_valid()`: MPI_ERR_TYPE
     if dims.any (fun d => d.2.1 > d.1 || d.2.2 + d.2.1 > d.1) then none else    -- MPI_ERR_ARG
@@ -221,16 +231,16 @@ def mkSubarray (dims : List (Int × Int × Int)) (orderC : Bool) (old : Obj) : O
           | some h => some (mkResized h 0 (size * extent))
     | _ => none
 
-/-- `MPI_Type_dup` = `datatype->clone()`: same size / lb / ub / flags.  `Type_Vector::clone` passes the stored stride (already
-    in bytes) as the `int stride` of the Type_Vector constructor, which multiplies it by the old extent again;
-    `Type_Indexed::clone` passes `(int*)block_indices_`: the MPI_Aint array is read as ints (little endian: entry 2j is
-    the low half of index j, entry 2j+1 its high half = 0 for non-negative indices) and scaled by the old extent again. -/
+/-- `MPI_Type_dup` = `datatype->clone()`: same size / lb / ub / flags and the same blocks.  `Type_Vector::clone` and
+    `Type_Indexed::clone` convert the stored byte stride / displacements back to extents of the old type (exact division;
+    0 when the extent is 0) before calling the constructors, which scale them again. -/
 def cloneObj : Obj → Obj
-  | .hvector i n bl stride old true => .hvector i n bl (stride * old.info.extent) old true
+  | .hvector i n bl stride old true =>
+    let e := old.info.extent
+    .hvector i n bl ((if e != 0 then stride / e else 0) * e) old true
   | .hindexed i blocks old true =>
-    let ds := blocks.map (·.2)
-    let garbled := (List.range blocks.length).map (fun k => if k % 2 == 0 then ds.getD (k / 2) 0 else 0)
-    .hindexed i ((blocks.map (·.1)).zip (garbled.map (· * old.info.extent))) old true
+    let e := old.info.extent
+    .hindexed i (blocks.map (fun b => (b.1, (if e != 0 then b.2 / e else 0) * e))) old true
   | o => o
 
 mutual
@@ -258,70 +268,34 @@ end
 
 /-! ## serialize / unserialize: the byte offsets visited, in order -/
 
-def Blocks.isNil : Blocks → Bool
-  | .nil => true
-  | .cons _ _ _ _ => false
-
-/-- `block_indices_[0]` -/
-def Blocks.firstDisp : Blocks → Int
-  | .nil => 0
-  | .cons _ d _ _ => d
-
 def byteRange (start len : Int) : List Int := (List.range len.toNat).map (fun (k : Nat) => start + (k : Int))
+
+/-- element indices `0 .. count-1` of a `for (j = 0; j < count; j++)` loop -/
+def upto (n : Int) : List Int := (List.range n.toNat).map (fun (k : Nat) => (k : Int))
 
 mutual
 /-- offsets (relative to the user buffer) read by `o->serialize(buf + base, contiguous, count)` in the order they
-    are stored in the contiguous buffer; `unserialize` visits the same offsets in the same order (writing). -/
+    are stored in the contiguous buffer; `unserialize` visits the same offsets in the same order (writing).
+    Type_Hvector / Type_Hindexed / Type_Struct: block i of element j is at `base + j * get_extent() + (i * stride | index_i)`;
+    a block is a memcpy of `bl * size` bytes when the old type is not derived, `old->serialize(p, ., bl)` otherwise. -/
 def walk : Obj → Int → Int → List Int
   | .plain i, count, base => byteRange (base + i.lb) (count * i.size)
   | .contig i n old, count, base => byteRange (base + i.lb) (old.info.size * count * n)
-  | .hvector _ n bl stride old _, count, base => hvWalk old bl stride n (n * count).toNat 0 base
-  | .hindexed _ blocks old _, count, base =>
-    match blocks with
-    | [] => []
-    | (_, d0) :: _ => hiWalk old blocks count.toNat base (base + d0)
-  | .struct _ blocks, count, base => stWalk blocks count.toNat base (base + blocks.firstDisp)
-termination_by o _ _ => (sizeOf o, 0, 0)
-/-- `for (i = 0; i < block_count_ * count; i++)` of Type_Hvector; `i` = iterations done, `p` = noncontiguous_buf_char -/
-def hvWalk (old : Obj) (bl stride n : Int) : Nat → Int → Int → List Int
-  | 0, _, _ => []
-  | fuel + 1, i, p =>
-    let blk := if !old.info.derived then byteRange p (bl * old.info.size) else walk old bl p
-    let p' := if (i + 1) % n == 0 then p + bl * old.info.size else p + stride
-    blk ++ hvWalk old bl stride n fuel (i + 1) p'
-termination_by fuel _ _ => (sizeOf old, fuel + 1, 0)
-/-- outer `for (j < count)` of Type_Hindexed; `iter` = noncontiguous_buf_iter, `p` = noncontiguous_buf_char -/
-def hiWalk (old : Obj) (blocks : List (Int × Int)) : Nat → Int → Int → List Int
-  | 0, _, _ => []
-  | fuel + 1, iter, p =>
-    let (bytes, p') := hiBlocks old blocks iter p
-    bytes ++ hiWalk old blocks fuel p' p'
-termination_by fuel _ _ => (sizeOf old, fuel + 1, 0)
-/-- inner `for (i < block_count_)`: returns the bytes and the final noncontiguous_buf_char -/
-def hiBlocks (old : Obj) : List (Int × Int) → Int → Int → List Int × Int
-  | [], _, p => ([], p)
-  | (bl, _) :: rest, iter, p =>
-    let blk := if !old.info.derived then byteRange p (bl * old.info.size) else walk old bl p
-    if rest.isEmpty then (blk, p + bl * old.info.extent)
-    else
-      let r := hiBlocks old rest iter (iter + (rest.headD (0, 0)).2)
-      (blk ++ r.1, r.2)
-termination_by bs _ _ => (sizeOf old, 0, bs.length + 1)
-def stWalk (blocks : Blocks) : Nat → Int → Int → List Int
-  | 0, _, _ => []
-  | fuel + 1, iter, p =>
-    let (bytes, p') := stBlocks blocks iter p
-    bytes ++ stWalk blocks fuel p' p'
-termination_by fuel _ _ => (sizeOf blocks, fuel + 1, 0)
-def stBlocks : Blocks → Int → Int → List Int × Int
-  | .nil, _, p => ([], p)
-  | .cons bl _ old rest, iter, p =>
-    let blk := if !old.info.derived then byteRange p (bl * old.info.size) else walk old bl p
-    if rest.isNil then (blk, p + bl * old.info.extent)
-    else
-      let r := stBlocks rest iter (iter + rest.firstDisp)
-      (blk ++ r.1, r.2)
-termination_by bs _ _ => (sizeOf bs, 0, 0)
+  | .hvector i n bl stride old _, count, base =>
+    (upto count).flatMap (fun j => (upto n).flatMap (fun k =>
+      let p := base + j * i.extent + k * stride
+      if !old.info.derived then byteRange p (bl * old.info.size) else walk old bl p))
+  | .hindexed i blocks old _, count, base =>
+    (upto count).flatMap (fun j => blocks.flatMap (fun b =>
+      let p := base + j * i.extent + b.2
+      if !old.info.derived then byteRange p (b.1 * old.info.size) else walk old b.1 p))
+  | .struct i blocks, count, base =>
+    (upto count).flatMap (fun j => walkBlocks blocks (base + j * i.extent))
+/-- inner `for (i < block_count_)` of Type_Struct for the element starting at `elem` -/
+def walkBlocks : Blocks → Int → List Int
+  | .nil, _ => []
+  | .cons bl d old rest, elem =>
+    (if !old.info.derived then byteRange (elem + d) (bl * old.info.size) else walk old bl (elem + d)) ++ walkBlocks rest elem
 end
 
 /-! ## the MPI standard (spec) -/
